@@ -53,6 +53,24 @@ Definition step (pr : protocol) (s : state) (p : nat) : state :=
 
 Definition run (pr : protocol) (sched : list nat) (s : state) : state := fold_left (step pr) sched s.
 
+(* A build that fails with an exception instead of being destroyed - the compiler is killed or exits with
+   an error, the builder receives SIGINT (KeyboardInterrupt) or a SIGTERM it handles: control leaves
+   compile_model through the `finally:` clause of make_dll, which removes the temporary output.
+   [publish_on_unwind] is the variant in which the clean-up renames the temporary onto the final name. *)
+Definition abort (publish_on_unwind : bool) (s : state) (p : nat) : state :=
+  match pc s p with
+  | WriteHalf => MkState (final s) (tmp s) (upd (pc s) p Done) (loaded s)
+  | WriteRest | Publish =>
+      if publish_on_unwind
+      then MkState (tmp s p) (upd (tmp s) p Absent) (upd (pc s) p Done) (loaded s)
+      else MkState (final s) (upd (tmp s) p Absent) (upd (pc s) p Done) (loaded s)
+  | _ => s
+  end.
+Inductive event := Step (p : nat) | Abort (p : nat).
+Definition estep (b : bool) (s : state) (e : event) : state :=
+  match e with Step p => step Rename s p | Abort p => abort b s p end.
+Definition erun (b : bool) (evs : list event) (s : state) : state := fold_left (estep b) evs s.
+
 (* trace of the final name after each step, for the correspondence check *)
 Fixpoint trace (pr : protocol) (sched : list nat) (s : state) : list content :=
   match sched with
